@@ -457,6 +457,7 @@ func runC13(c *Ctx) {
 	ruleWatchdogStandDown(c, p, "C13.watchdog", hs, hg)
 	// ---- C13.min
 	downgradeIf, downgradeSite := ruleNegotiatedMin(c, p, "C13.min", hg)
+	ruleHelloAccepted(c, p, "C13.hello-accepted", hg)
 	_ = downgradeIf
 	rule := "C13.min"
 	_ = rule
@@ -1518,4 +1519,97 @@ func ruleExceptionChain(c *Ctx, p *core.Program, rule string) {
 	}
 	c.R.Count("Nested reads inside the exception loop", n)
 	c.R.Floor(rule, cfg, n, 1)
+}
+
+// ruleHelloAccepted (C13): a decoded hello is not judged against the client's own environment.
+func ruleHelloAccepted(c *Ctx, p *core.Program, rule string, hg *ssa.Function) {
+	c.R.Rule(rule, "in the handshake goroutine, once the server hello has been decoded, an error is returned only as the result of writing to the connection (Client.flush / the encoders): the hello's strings - name, display name, time zone - are the server's identity, reported as sent; a handshake that fails because the zone name is missing from the client machine's tz database rejects a well-formed, timely hello")
+	cfg := p.Cfg.Name
+	var dec ssa.Instruction
+	for _, call := range core.Calls(hg) {
+		f := core.CalleeFunc(call)
+		if f != nil && core.IsMethod(f, core.PkgCh, "Client", "decode") {
+			a := call.Common().Args[len(call.Common().Args)-1]
+			if mi, ok := a.(*ssa.MakeInterface); ok {
+				a = mi.X
+			}
+			if fa, ok := a.(*ssa.FieldAddr); ok && fieldNameOnly(fa.X.Type(), fa.Field) == "server" {
+				dec = call.(ssa.Instruction)
+			}
+		}
+	}
+	if dec == nil {
+		// the hello may be read by a helper (readServerHello)
+		for _, call := range core.Calls(hg) {
+			if g := core.StaticFn(call); g != nil && g.Blocks != nil && pkgOf(g) != nil && pkgOf(g).Path() == core.PkgCh && core.ReachesCallee(g, isClientMethod("decode"), 1) && core.ReachesCallee(g, isClientMethod("packet"), 1) {
+				dec = call.(ssa.Instruction)
+			}
+		}
+	}
+	if dec == nil {
+		c.R.Unk(rule, core.FuncName(hg), cfg, p.Pos(hg.Pos()), "decode of the server hello not found")
+		return
+	}
+	okEdge := func(b *ssa.BasicBlock, i int) bool {
+		// leave the decode's own failure edge out
+		if call, ok := dec.(ssa.CallInstruction); ok {
+			if ev := core.ErrValue(call); ev != nil {
+				al := core.Aliases(hg, ev)
+				if ifi, ok := b.Instrs[len(b.Instrs)-1].(*ssa.If); ok {
+					if ns, ok := core.NilTest(ifi, al); ok && ns != i {
+						return false
+					}
+				}
+			}
+		}
+		return true
+	}
+	var fromWriteD func(v ssa.Value, d int) bool
+	fromWriteD = func(v ssa.Value, d int) bool {
+		return core.DependsOn(v, func(x ssa.Value) bool {
+			cl, ok := x.(*ssa.Call)
+			if !ok {
+				return false
+			}
+			f := core.CalleeFunc(cl)
+			if f != nil && (core.IsMethod(f, core.PkgCh, "Client", "flush") || core.IsMethod(f, core.PkgCh, "Client", "flushBuf")) {
+				return true
+			}
+			// a helper of the client all of whose failures are write failures (sendAddendum)
+			g := core.StaticFn(cl)
+			if g == nil || g.Blocks == nil || d > 1 || pkgOf(g) == nil || pkgOf(g).Path() != core.PkgCh {
+				return false
+			}
+			any := false
+			for _, gb := range g.Blocks {
+				r, ok := gb.Instrs[len(gb.Instrs)-1].(*ssa.Return)
+				if !ok {
+					continue
+				}
+				ev := core.ReturnErr(g, r)
+				if ev == nil || core.IsNilConst(ev) {
+					continue
+				}
+				if !fromWriteD(ev, d+1) {
+					return false
+				}
+				any = true
+			}
+			return any
+		}, true)
+	}
+	fromWrite := func(v ssa.Value) bool { return fromWriteD(v, 0) }
+	w := core.ReachAvoiding(core.PointOf(dec), func(in ssa.Instruction) bool {
+		r, ok := in.(*ssa.Return)
+		if !ok || len(r.Results) == 0 {
+			return false
+		}
+		ev := core.ReturnErr(hg, r)
+		return ev != nil && !core.IsNilConst(ev) && !fromWrite(ev)
+	}, nil, okEdge)
+	if len(w) > 0 {
+		c.R.Bad(rule, core.FuncName(hg), cfg, p.Pos(w[0].At.Pos()), "after the hello was decoded the handshake can still fail for a reason other than a write error: the server's answer is rejected on the strength of something the client checks locally", p.TrailString(w[0])...)
+	} else {
+		c.R.Ok(rule, core.FuncName(hg), cfg, p.Pos(dec.Pos()), "after the hello only write errors fail the handshake")
+	}
 }
